@@ -50,4 +50,219 @@ def selfcheck():
             n += 1
     assert match_fields(['a|b', 'a.'], ['a', 'ab', 'b']) == [['a', 'b'], ['ab']]
     n += 1
+    n += _selfcheck_fields()
+    n += _selfcheck_rows()
     return n
+
+
+# ---------------------------------------------------------------------------------------------
+# field-level processors (C15).  fields: list of field descriptors; rows: list of dicts.
+
+class Expected(Exception):
+    """The documented outcome of this configuration is an error."""
+
+
+class Undefined(Exception):
+    """The documentation does not define the outcome (any behaviour accepted)."""
+
+
+def _fm(p, name, regex, legacy=False):
+    if not regex:
+        return name == p
+    if legacy:   # '^' + p + '$' with re.match: only used to NAME a mechanism, never as the oracle
+        return re.match('^' + p + '$', name) is not None
+    return re.fullmatch(p, name) is not None
+
+
+def select_fields(fields, rows, patterns, regex=True, legacy=False):
+    names = [f['name'] for f in fields]
+    chosen = []
+    for p in patterns:
+        for n in names:
+            if n not in chosen and _fm(p, n, regex, legacy):
+                chosen.append(n)
+    if not chosen:
+        raise Expected('nothing selected')
+    byname = {f['name']: f for f in fields}
+    return [byname[n] for n in chosen], [{k: v for k, v in r.items() if k in chosen} for r in rows]
+
+
+def delete_fields(fields, rows, patterns, regex=True, legacy=False):
+    keep = [f for f in fields if not any(_fm(p, f['name'], regex, legacy) for p in patterns)]
+    kn = [f['name'] for f in keep]
+    return keep, [{k: v for k, v in r.items() if k in kn} for r in rows]
+
+
+def rename_fields(fields, rows, mapping, regex=True, legacy=False):
+    """mapping: list of (src_pattern, target_template) in the user's dict order."""
+    ren = {}
+    for f in fields:
+        n = f['name']
+        for src, tgt in mapping:
+            if _fm(src, n, regex, legacy):
+                if regex:
+                    m = re.fullmatch(src, n)
+                    ren[n] = m.expand(tgt) if m is not None else re.sub('^' + src + '$', tgt, n)
+                else:
+                    ren[n] = tgt
+                break
+    new_names = [ren.get(f['name'], f['name']) for f in fields]
+    if len(set(new_names)) != len(new_names):
+        raise Undefined('name clash after rename')
+    out_fields = [dict(f, name=ren.get(f['name'], f['name'])) for f in fields]
+    return out_fields, [{ren.get(k, k): v for k, v in r.items()} for r in rows]
+
+
+def computed_value(op, values, with_, row):
+    """Documented add_computed_field operations over the row's non-null source values."""
+    if callable(op):
+        return op(row)
+    if op == 'constant':
+        return with_
+    if op == 'format':
+        return with_.format(**row)
+    if op == 'join':
+        return with_.join(str(v) for v in values)
+    if op == 'sum':
+        return sum(values)
+    if not values:
+        raise Undefined('%s over zero non-null values' % op)
+    if op == 'avg':
+        return sum(values) / len(values)
+    if op == 'min':
+        return min(values)
+    if op == 'max':
+        return max(values)
+    if op == 'multiply':
+        p = values[0]
+        for v in values[1:]:
+            p = p * v
+        return p
+    raise KeyError(op)
+
+
+def add_computed(fields, rows, specs):
+    """specs: [{'target': name|descriptor, 'operation', 'source', 'with'}]; new fields appended."""
+    out_fields = list(fields)
+    for s in specs:
+        t = s['target']
+        out_fields.append({'name': t} if isinstance(t, str) else dict(t))
+    out_rows = []
+    for r in rows:
+        r = dict(r)
+        for s in specs:
+            t = s['target'] if isinstance(s['target'], str) else s['target']['name']
+            vals = [r.get(c) for c in s.get('source', []) if r.get(c) is not None]
+            r[t] = computed_value(s['operation'], vals, s.get('with', ''), r)
+        out_rows.append(r)
+    return out_fields, out_rows
+
+
+def find_replace(fields, rows, specs, null_as_text=False):
+    out = []
+    for r in rows:
+        r = dict(r)
+        for s in specs:
+            v = r[s['name']]
+            if v is None and not null_as_text:
+                continue
+            v = str(v)
+            for p in s.get('patterns', []):
+                v = re.sub(str(p['find']), str(p['replace']), v)
+            r[s['name']] = v
+        out.append(r)
+    return list(fields), out
+
+
+def _selfcheck_fields():
+    """Examples taken from PROCESSORS.md / tests/test_lib.py expectations."""
+    F = [{'name': n, 'type': 'integer'} for n in ('a', 'b', 'c1', 'c2')]
+    R = [{'a': 1, 'b': 2, 'c1': 3, 'c2': None}]
+    f, r = select_fields(F, R, ['c.', 'a'])
+    assert [x['name'] for x in f] == ['c1', 'c2', 'a'] and r == [{'a': 1, 'c1': 3, 'c2': None}]
+    f, r = delete_fields(F, R, ['c\\d'])
+    assert [x['name'] for x in f] == ['a', 'b'] and r == [{'a': 1, 'b': 2}]
+    f, r = rename_fields(F, R, [('c(\\d)', 'C\\1'), ('a', 'A')])
+    assert [x['name'] for x in f] == ['A', 'b', 'C1', 'C2'] and r == [{'A': 1, 'b': 2, 'C1': 3, 'C2': None}]
+    f, r = add_computed(F, R, [{'target': 's', 'operation': 'sum', 'source': ['a', 'b', 'c2']},
+                               {'target': 'j', 'operation': 'join', 'source': ['a', 'c1'], 'with': '-'},
+                               {'target': 'f', 'operation': 'format', 'with': '{a}/{b}'}])
+    assert r[0]['s'] == 3 and r[0]['j'] == '1-3' and r[0]['f'] == '1/2'
+    assert [x['name'] for x in f][-3:] == ['s', 'j', 'f']
+    f, r = find_replace([{'name': 't', 'type': 'string'}], [{'t': 'hello'}, {'t': None}],
+                        [{'name': 't', 'patterns': [{'find': 'l+', 'replace': 'L'}, {'find': 'L', 'replace': 'x'}]}])
+    assert r == [{'t': 'hexo'}, {'t': None}]
+    return 6
+
+
+# ---------------------------------------------------------------------------------------------
+# row-level processors (C17)
+
+def filter_rows(rows, condition=None, equals=(), not_equals=()):
+    out = []
+    for r in rows:
+        if condition is not None:
+            keep = bool(condition(r))
+        else:
+            keep = any(r[k] == v for o in equals for k, v in o.items()) or \
+                any(r[k] != v for o in not_equals for k, v in o.items())
+        if keep:
+            out.append(r)
+    return out
+
+
+def deduplicate(rows, pk):
+    if not pk:
+        return list(rows)
+    seen, out = [], []
+    for r in rows:
+        key = tuple(r[k] for k in pk)
+        if key in seen:     # list membership: no hashing assumptions
+            continue
+        seen.append(key)
+        out.append(r)
+    return out
+
+
+def unpivot(fields, rows, unpivot_fields, extra_keys, extra_value, regex=True):
+    remaining = list(fields)
+    plan = []   # (field name, {key: value})
+    for u in unpivot_fields:
+        hit, rest = [], []
+        for f in remaining:
+            m = re.fullmatch(u['name'], f['name']) if regex else (f['name'] == u['name'] or None)
+            (hit if m else rest).append((f, m))
+        remaining = [f for f, _ in rest]
+        for f, m in hit:
+            keys = {}
+            for k, tmpl in u['keys'].items():
+                keys[k] = m.expand(tmpl) if (regex and isinstance(tmpl, str)) else tmpl
+            plan.append((f['name'], keys))
+    kept = [f['name'] for f in remaining]
+    out_fields = remaining + list(extra_keys) + [extra_value]
+    out_rows = []
+    for r in rows:
+        for name, keys in plan:
+            nr = dict(keys)
+            for k in kept:
+                nr[k] = r[k]
+            nr[extra_value['name']] = r.get(name)
+            out_rows.append(nr)
+    return out_fields, out_rows, len(plan)
+
+
+def _selfcheck_rows():
+    """PROCESSORS.md unpivot example (row-major order as the property states) and test_lib cases."""
+    data = [{'2000': 'a1', '2001': 'b1'}, {'2000': 'a2', '2001': 'b2'}]
+    F = [{'name': '2000', 'type': 'string'}, {'name': '2001', 'type': 'string'}]
+    f, r, n = unpivot(F, data, [{'name': '([0-9]{4})', 'keys': {'year': '\\1'}}],
+                      [{'name': 'year', 'type': 'year'}], {'name': 'value', 'type': 'string'})
+    assert r == [{'year': '2000', 'value': 'a1'}, {'year': '2001', 'value': 'b1'},
+                 {'year': '2000', 'value': 'a2'}, {'year': '2001', 'value': 'b2'}] and n == 2
+    assert [x['name'] for x in f] == ['year', 'value']
+    rows = [{'a': 1, 'b': 'x'}, {'a': 2, 'b': 'x'}, {'a': 1, 'b': 'y'}]
+    assert deduplicate(rows, ['a']) == rows[:2] and deduplicate(rows, ['a', 'b']) == rows
+    assert filter_rows(rows, equals=[{'a': 1}]) == [rows[0], rows[2]]
+    assert filter_rows(rows, not_equals=[{'a': 1}]) == [rows[1]]
+    assert filter_rows(rows, equals=[{'a': 2}], not_equals=[{'b': 'x'}]) == [rows[1], rows[2]]
+    return 6
